@@ -233,6 +233,32 @@ theorem CrInv.append {n m : Nat} {cdr rs} (h : CrInv n cdr rs) (hnm : n ≤ m) (
       · rw [hs] at h'; cases h'
       · rw [hs] at h'; cases h'; exact ⟨hne, hb⟩
 
+/-- the record of a one-time event is appended: it carries no reference and the session map is not touched -/
+theorem CrInv.appendEvt {n m : Nat} {cdr rs} (h : CrInv n cdr rs) (hnm : n ≤ m) (rec : Record) (hs : rec.sid = none) :
+    CrInv m cdr (rs ++ [rec]) := by
+  have hm := h.mono hnm
+  refine ⟨h.nodup, ?_, ?_, ?_, ?_⟩
+  · intro p hp
+    have := h.idx p hp; simp; omega
+  · intro p hp hnil
+    rw [sidsOf_append]
+    have hi := h.idx p hp
+    rw [List.getElem?_append_left (by rw [sidsOf_length]; exact hi)]
+    exact h.evt p hp hnil
+  · intro p hp hne
+    rw [sidsOf_append]
+    have hi := h.idx p hp
+    obtain ⟨l1, l2⟩ := h.live p hp hne
+    refine ⟨by rw [List.getElem?_append_left (by rw [sidsOf_length]; exact hi)]; exact l1, ?_⟩
+    rw [List.drop_append_of_le_length (by rw [sidsOf_length]; omega)]
+    simp only [List.mem_append, List.mem_singleton, not_or]
+    exact ⟨l2, by rw [hs]; intro e; cases e⟩
+  · intro k hk'
+    rw [sidsOf_append, List.mem_append, List.mem_singleton] at hk'
+    rcases hk' with h' | h'
+    · exact hm.below k h'
+    · rw [hs] at h'; cases h'
+
 /-- a record is replaced by one with the same reference -/
 theorem CrInv.set {n : Nat} {cdr rs} (h : CrInv n cdr rs) (i : Nat) (r' : Record)
     (hs : ∀ r, rs[i]? = some r → r'.sid = r.sid) : CrInv n cdr (rs.set i r') := by
@@ -376,17 +402,17 @@ theorem create_acc (s : State) (r : Req) (nf : Bytes) (hnf : r.nf = some nf) (hp
     (hb : r.bad = false) :
     ∃ (ue' : Ue) (rec1 : Record) (key : Bytes),
       (create s r).2.status = 201 ∧ (create s r).2.loc = some key ∧ (create s r).1.ues = putUe s.ues ue' ∧
-      ue'.supi = (ueOr s r).supi ∧ ue'.records = (ueOr s r).records ++ [rec1] ∧
-      ue'.cdr = setSid (ueOr s r).cdr key (ueOr s r).records.length ∧ rec1.usage = toRecUsage r.usages ∧
-      ((key = [] ∧ rec1.sid = none ∧ (create s r).1.sessionSeq = s.sessionSeq) ∨
-       (key = sessionId r.supi nf s.sessionSeq ∧ rec1.sid = some key ∧ (create s r).1.sessionSeq = s.sessionSeq + 1)) := by
+      ue'.supi = (ueOr s r).supi ∧ ue'.records = (ueOr s r).records ++ [rec1] ∧ rec1.usage = toRecUsage r.usages ∧
+      ((key = [] ∧ rec1.sid = none ∧ (create s r).1.sessionSeq = s.sessionSeq ∧ ue'.cdr = (ueOr s r).cdr) ∨
+       (key = sessionId r.supi nf s.sessionSeq ∧ rec1.sid = some key ∧ (create s r).1.sessionSeq = s.sessionSeq + 1 ∧
+        ue'.cdr = setSid (ueOr s r).cdr key (ueOr s r).records.length)) := by
   unfold create ueOr
   simp only [hnf, hp, hb, not_true_eq_false, if_false, Bool.false_eq_true]
   by_cases h1 : r.one = true
   · simp only [h1, if_true]
-    exact ⟨_, _, _, trivial, rfl, rfl, rfl, rfl, rfl, by simp [appendUsage], Or.inl ⟨rfl, rfl, trivial⟩⟩
+    exact ⟨_, _, _, trivial, rfl, rfl, rfl, rfl, by simp [appendUsage], Or.inl ⟨rfl, rfl, trivial, rfl⟩⟩
   · simp only [h1, Bool.false_eq_true, if_false]
-    refine ⟨_, _, _, trivial, rfl, rfl, rfl, rfl, rfl, by simp [appendUsage], Or.inr ⟨rfl, ?_, trivial⟩⟩
+    refine ⟨_, _, _, trivial, rfl, rfl, rfl, rfl, by simp [appendUsage], Or.inr ⟨rfl, ?_, trivial, rfl⟩⟩
     simp [appendUsage, sessionId_ne_nil]
 
 theorem update_rej (guard : SplitGuard) (s : State) (k : Bytes) (r : Req)
@@ -460,14 +486,14 @@ theorem sess_step (guard : SplitGuard) (s : State) (op : Op) (supi sid : Bytes) 
           | some u => rfl
         rw [hbad]
         have hn0 : s.sessionSeq ≤ (if r.one = true then s.sessionSeq else s.sessionSeq + 1) := by split <;> omega
-        refine ⟨?_, sessInv_put (ue' := { ueOr s r with notifyUri := r.uri }) hinv hn0 (hcr0.mono hn0) rfl⟩
-        rw [sessUsage_put (ue' := { ueOr s r with notifyUri := r.uri }) rfl]
+        refine ⟨?_, sessInv_put (ue' := ueOr s r) hinv hn0 (hcr0.mono hn0) rfl⟩
+        rw [sessUsage_put (ue' := ueOr s r) rfl]
         simp only [ueOr_supi]
         by_cases e : supi = r.supi
         · subst e; simp [hprev0]
         · simp [e]
       have hb' : r.bad = false := by cases h : r.bad <;> simp_all
-      obtain ⟨ue', rec1, key, hst, hloc, hues, hsup', hrecs, hcdr, hru, hkey⟩ := create_acc s r nf hnf hp hb'
+      obtain ⟨ue', rec1, key, hst, hloc, hues, hsup', hrecs, hru, hkey⟩ := create_acc s r nf hnf hp hb'
       have hsupi : (ueOr s r).supi = r.supi := by
         unfold ueOr; cases hf : findUe s.ues r.supi with
         | none => rfl
@@ -481,13 +507,15 @@ theorem sess_step (guard : SplitGuard) (s : State) (op : Op) (supi sid : Bytes) 
         | none => simp [sessUsageRecs]
         | some u => rfl
       have hn : s.sessionSeq ≤ (create s r).1.sessionSeq := by
-        rcases hkey with ⟨_, _, e⟩ | ⟨_, _, e⟩ <;> omega
+        rcases hkey with ⟨_, _, e, _⟩ | ⟨_, _, e, _⟩ <;> omega
       have hcr' : CrInv (create s r).1.sessionSeq ue'.cdr ue'.records := by
-        rw [hcdr, hrecs]
-        apply hcr.append hn
-        rcases hkey with ⟨k0, hs0, _⟩ | ⟨k1, hs1, e⟩
-        · exact Or.inl ⟨k0, hs0⟩
-        · refine Or.inr ⟨by rw [k1]; exact sessionId_ne_nil _ _ _, hs1, ⟨r.supi, nf, s.sessionSeq, k1, by omega⟩⟩
+        rw [hrecs]
+        rcases hkey with ⟨_, hs0, _, hcdr⟩ | ⟨k1, hs1, e, hcdr⟩
+        · -- a one-time event: a record without reference is appended, the session map stays
+          rw [hcdr]; exact hcr.appendEvt hn rec1 hs0
+        · rw [hcdr]
+          apply hcr.append hn
+          refine Or.inr ⟨by rw [k1]; exact sessionId_ne_nil _ _ _, hs1, ⟨r.supi, nf, s.sessionSeq, k1, by omega⟩⟩
       refine ⟨?_, sessInv_put hinv hn hcr' hues⟩
       rw [sessUsage_put hues, hsup', hsupi]
       by_cases e : supi = r.supi
@@ -495,11 +523,11 @@ theorem sess_step (guard : SplitGuard) (s : State) (op : Op) (supi sid : Bytes) 
         simp only [if_true, hrecs, sess_append, hprev, hst, hloc, true_and, hru]
         by_cases hk : key = sid
         · subst hk
-          rcases hkey with ⟨k0, _, _⟩ | ⟨_, hs1, _⟩
+          rcases hkey with ⟨k0, _, _, _⟩ | ⟨_, hs1, _, _⟩
           · exact absurd k0 hsid
           · simp [hs1]
         · have hne : ¬ (some key = some sid) := fun x => hk (Option.some.inj x)
-          rcases hkey with ⟨_, hs0, _⟩ | ⟨_, hs1, _⟩
+          rcases hkey with ⟨_, hs0, _, _⟩ | ⟨_, hs1, _, _⟩
           · simp [hs0, hne]
           · simp [hs1, hne]
       · have e' : ¬ (r.supi = supi) := fun x => e x.symm
